@@ -11,8 +11,10 @@ import time
 from . import kani, registry, census, replay, findings
 
 VERIF = kani.VERIF
-TOTAL_MEM_GB = float(os.environ.get("VERIF_MEM_GB", "44"))
-MAX_JOBS = int(os.environ.get("VERIF_JOBS", "7"))
+TOTAL_MEM_GB = float(os.environ.get("VERIF_MEM_GB", "46"))
+MAX_JOBS = int(os.environ.get("VERIF_JOBS", "11"))
+# campaign aid: stop launching solver runs once one has produced a counterexample tagged with the property
+FAIL_FAST = os.environ.get("VERIF_FAIL_FAST", "") != ""
 
 NOT_APPLICABLE = {"C12", "C20"}
 
@@ -63,17 +65,20 @@ class MemScheduler:
             self.cv.notify_all()
 
 
-def run_jobs(jobs, tier, use_cache, progress=True):
+def run_jobs(jobs, tier, use_cache, progress=True, pid=None):
     sched = MemScheduler(TOTAL_MEM_GB, MAX_JOBS)
     results = []
     lock = threading.Lock()
     done = [0]
+    stop = [False]
 
     def work(job):
         h, cfg = job
         sched.acquire(h["weight"])
         try:
-            tmo = h["timeout"] if tier == "thorough" else min(h["timeout"], int(os.environ.get("VERIF_QUICK_CAP", "900")))
+            if stop[0]:
+                return (h, cfg, None)
+            tmo = h["timeout"] if tier == "thorough" else min(h["timeout"], int(os.environ.get("VERIF_QUICK_CAP", "1500")))
             r = kani.run_harness(h, cfg, tmo, h["mem"], use_cache=use_cache)
         except Exception as e:  # pragma: no cover
             r = {"name": h["name"], "cfg": cfg, "status": "error", "log_tail": repr(e), "failed_checks": [],
@@ -81,6 +86,9 @@ def run_jobs(jobs, tier, use_cache, progress=True):
                  "wall_s": 0.0, "verification_time_s": None, "encoding": None}
         finally:
             sched.release(h["weight"])
+        if FAIL_FAST and pid and r.get("status") == "fail" and h["expect"] != "twin" and any(
+                pid in attribute(h, fc) for fc in r.get("failed_checks", [])):
+            stop[0] = True
         with lock:
             done[0] += 1
             if progress:
@@ -89,11 +97,14 @@ def run_jobs(jobs, tier, use_cache, progress=True):
                     " (verdict reused: identical encoding)" if r.get("reused") else ""), flush=True)
         return (h, cfg, r)
 
-    # heavy first
-    jobs = sorted(jobs, key=lambda j: -j[0]["weight"])
+    # heavy first (shortest makespan); cheapest first when hunting for the first counterexample
+    jobs = sorted(jobs, key=lambda j: (j[0]["timeout"], j[0]["weight"])) if FAIL_FAST else sorted(jobs, key=lambda j: -j[0]["weight"])
     with cf.ThreadPoolExecutor(max_workers=MAX_JOBS) as ex:
         for res in ex.map(work, jobs):
-            results.append(res)
+            if res[2] is not None:
+                results.append(res)
+    if stop[0]:
+        print(f"  fail-fast: stopped after the first counterexample ({len(results)} of {len(jobs)} queries run)", flush=True)
     return results
 
 
@@ -131,7 +142,7 @@ def main(argv=None):
     # thorough ignores the verdict store (and refreshes it); quick reuses a verdict only for a
     # byte-identical encoding produced from the current tree
     use_cache = (not args.no_cache) and args.tier == "quick" and os.environ.get("VERIF_NO_CACHE", "") == ""
-    results = run_jobs(jobs, args.tier, use_cache)
+    results = run_jobs(jobs, args.tier, use_cache, pid=pid)
 
     known = findings.load()
     violations, inconclusive, known_hits, other_fail = [], [], [], []
